@@ -433,8 +433,130 @@ def rule_policy_rows(ctx):
     ])
 
 
+def _validated_versions(ctx, versions, lo, hi):
+    """What HandshakeSettings.validate() leaves in `versions` for minVersion=lo, maxVersion=hi: the
+    methods validate() calls are walked in call order (condeval.outcomes, nothing is run) and every
+    assignment to `<settings>.versions` met on the decided path is evaluated."""
+    from ..condeval import outcomes, ev, Unknown
+    val = ctx.index.func("handshakesettings:HandshakeSettings.validate")
+    hs = ctx.index.cls("handshakesettings:HandshakeSettings")
+    cur = tuple(versions)
+    walked = 0
+    for call in sorted(calls_in(val.node), key=lambda c: (c.lineno, c.col_offset)):
+        nm = call_name(call)
+        fi = hs.methods.get(nm) if nm else None
+        if fi is None or fi.name == "__init__":
+            continue
+        stores = [n for n in own_nodes(fi.node) if isinstance(n, ast.Assign) and len(n.targets) == 1
+                  and isinstance(n.targets[0], ast.Attribute) and n.targets[0].attr == "versions"
+                  and isinstance(n.targets[0].value, ast.Name)
+                  and not (isinstance(n.value, ast.Attribute) and n.value.attr == "versions")]
+        if not stores:
+            continue
+        base = stores[0].targets[0].value.id
+        g = ctx.an.cfg(fi)
+        env = {base + ".versions": cur, base + ".minVersion": lo, base + ".maxVersion": hi,
+               "__index__": ctx.index, "__an__": ctx.an}
+        got = []
+
+        def visit(n, ve, taint, got=got, stores=stores):
+            if n.ast in stores:
+                try:
+                    got.append((tuple(ev(n.ast.value, ve)), taint))
+                except (Unknown, TypeError, AttributeError, KeyError, IndexError):
+                    got.append((None, True))
+        cache = {}
+
+        def ao(t, g=g, cache=cache):
+            if t.id not in cache:
+                cache[t.id] = dead_edge_labels(g, t, [g.exit])
+            return cache[t.id]
+        outcomes(g, fi.node, env, ao, visit=visit)
+        walked += 1
+        if any(v is None or t for v, t in got):
+            raise AnalysisError("C03.VERSION: cannot evaluate the assignment to %s.versions in %s"
+                                % (base, fi.qname))
+        if got:
+            cur = got[-1][0]
+    return cur, walked
+
+
+def rule_version_range(ctx):
+    """VERSION: the protocol version either side settles on lies inside its own minVersion..maxVersion.
+    validate()'s effect on `versions` is computed first and fed into the server's selection."""
+    from ..condeval import outcomes
+    from .common import spec_rows
+    R = "C03.VERSION"
+    fi = ctx.index.func(TLSCONN + "_serverGetClientHello")
+    g = ctx.an.cfg(fi)
+    cache = {}
+
+    def ao(t):
+        if t.id not in cache:
+            cache[t.id] = dead_edge_labels(g, t, [g.exit])
+        return cache[t.id]
+    default = ((3, 4), (3, 3), (3, 2), (3, 1))
+    offers = [default, ((3, 4), (3, 1)), ((3, 4),), ((3, 3), (3, 2))]
+    n_rows = seen_values = 0
+    bad = None
+    memo = {}
+    for hi in [(3, 1), (3, 2), (3, 3), (3, 4)]:
+        for lo in [(3, 1), (3, 3)]:
+            if lo > hi:
+                continue
+            V, walked = _validated_versions(ctx, default, lo, hi)
+            for offer in offers:
+                env = {"ver_ext": True, "ver_ext.versions": offer, "settings.versions": V,
+                       "settings.minVersion": lo, "settings.maxVersion": hi,
+                       "clientHello.cipher_suites": (47,), "__index__": ctx.index, "__an__": ctx.an}
+                vals = set()
+
+                def visit(n, ve, taint, vals=vals):
+                    # (paths through undecided unrelated tests count: the value only depends on the row)
+                    if isinstance(ve.get("version"), tuple):
+                        vals.add(ve["version"])
+                out, both = outcomes(g, fi.node, env, ao, memo, visit=visit)
+                n_rows += 1
+                ends = {x for x, t in out}
+                common = [v for v in V if v in offer and lo <= v <= hi]
+                inside = [v for v in default if v in offer and lo <= v <= hi]
+                shown = "minVersion=%r, maxVersion=%r (validated versions %r), client supported_versions %r" % (
+                    lo, hi, V, offer)
+                if not inside:
+                    if "pass" in ends and bad is None:
+                        bad = "for %s the hello is accepted although no offered version is inside the range" % shown
+                    continue
+                seen_values += len(vals)
+                outside = sorted(v for v in vals if not lo <= v <= hi)
+                if outside and bad is None:
+                    bad = "for %s the server selects %r" % (shown, outside[0])
+                if ("raise", False) in out and common and bad is None:
+                    bad = "for %s the hello is refused although %r is inside both ranges" % (shown, common[0])
+    if seen_values < 8:
+        raise AnalysisError("C03.VERSION: the selected version could be followed on %d assignments only" % seen_values)
+    ctx.check(R, bad is None, fi.qname, "server selects a version inside minVersion..maxVersion",
+              "the version the server settles on must lie inside its own settings: %s" % bad, fi.loc(),
+              what="%s: version selected from supported_versions stays inside minVersion..maxVersion "
+                   "(%d assignments, validate() composed)" % (fi.short, n_rows))
+    # the client's acceptance of the ServerHello version, with validate()'s versions composed in
+    rows = []
+    for hi in [(3, 1), (3, 2), (3, 3), (3, 4)]:
+        for lo in [(3, 1), (3, 3)]:
+            if lo > hi:
+                continue
+            V, _ = _validated_versions(ctx, default, lo, hi)
+            rows.append(dict(what="client: ServerHello version inside %r..%r" % (lo, hi),
+                             dom={"real_version": [(3, 1), (3, 2), (3, 3), (3, 4)], "settings.versions": [V],
+                                  "settings.minVersion": [lo], "settings.maxVersion": [hi],
+                                  "hello_retry": [None]},
+                             abort=lambda e: not e["settings.minVersion"] <= e["real_version"] <= e["settings.maxVersion"],
+                             msg="a ServerHello version outside the client's minVersion..maxVersion must be refused"))
+    spec_rows(ctx, R, TLSCONN + "_clientGetServerHello", rows)
+
+
 RULES = [
     ("C03.POLICY", "quick", rule_policy_rows),
+    ("C03.VERSION", "quick", rule_version_range),
     ("C03.SH-GATES", "quick", rule_sh_gates),
     ("C03.RESUME-POLICY", "quick", rule_resume_policy),
     ("C03.SRV-PICK", "quick", rule_srv_pick),
